@@ -8,6 +8,7 @@ import (
 	"sort"
 	"strings"
 	"sync"
+	"sync/atomic"
 
 	k_nearest_nodes "github.com/anacrolix/dht/v2/k-nearest-nodes"
 	"github.com/anacrolix/dht/v2/krpc"
@@ -79,6 +80,8 @@ type travWorld struct {
 	seq     int
 	learned map[string]learnedC // addr -> contact info (best known id)
 	offered map[string][]types.AddrMaybeId // forms handed to the traversal (before it processed them)
+	apiLearned map[string]bool             // addresses handed over through AddNodes (seed or late), after it returned
+	viaWatcher bool                        // the stall now being judged was received by a consumer blocked on Stalled()
 	resps   []tresp
 	op      *traversal.Operation
 	stopCalled bool
@@ -234,7 +237,7 @@ func cmpBytes(a, b [20]byte) int {
 
 func trav(r *Run, focus string) {
 	ch := r.Ch
-	tw := &travWorld{r: r, focus: focus, byAddr: map[string]*tnode{}, queried: map[string]int{}, learned: map[string]learnedC{}, offered: map[string][]types.AddrMaybeId{}}
+	tw := &travWorld{r: r, focus: focus, byAddr: map[string]*tnode{}, queried: map[string]int{}, learned: map[string]learnedC{}, offered: map[string][]types.AddrMaybeId{}, apiLearned: map[string]bool{}}
 	tw.target = r.RandID()
 	// ---- swarm flags
 	adversarial := ch.Chance(1, 2, "flag.adversarial") || focus == "C04" && ch.Chance(1, 2, "flag.adv4")
@@ -449,6 +452,7 @@ func trav(r *Run, focus string) {
 			tw.mu.Lock()
 			for _, a := range batch {
 				tw.learn(a)
+				tw.apiLearned[a.Addr.String()] = true
 			}
 			tw.apiBusy--
 			tw.mu.Unlock()
@@ -502,7 +506,40 @@ func trav(r *Run, focus string) {
 		p.ch <- res
 	}
 
+	// Two ways of observing the stall signal: polling from the driver (a
+	// non-blocking receive, which can only succeed while the run loop is blocked
+	// offering it), or a consumer goroutine blocked on Stalled() like the
+	// library's own callers (announce, bootstrap): only the latter can pair with
+	// a stale offer the run loop makes right after it was woken.
+	watcher := focus == "C03" && ch.Chance(1, 2, "flag.watcher")
+	r.Swarm["watcher"] = watcher
+	var watchHit, watchClosed atomic.Bool
+	watchAck := make(chan struct{}, 1)
+	defer close(watchAck)
+	if watcher {
+		r.Go("watcher", func() any {
+			for {
+				_, ok := <-op.Stalled()
+				if !ok {
+					watchClosed.Store(true)
+					return nil
+				}
+				watchHit.Store(true)
+				r.Wake()
+				<-watchAck
+			}
+		})
+	}
+	tw.viaWatcher = watcher
 	stalledNow := func() bool {
+		if watcher {
+			if watchHit.Load() {
+				watchHit.Store(false)
+				watchAck <- struct{}{}
+				return true
+			}
+			return watchClosed.Load()
+		}
 		select {
 		case <-op.Stalled():
 			return true
@@ -595,14 +632,26 @@ func trav(r *Run, focus string) {
 				if !nfOK(a) {
 					continue
 				}
+				// A consumer blocked on Stalled() can be handed an offer the run loop computed
+				// before an AddNodes call that has since returned (known finding, DESIGN §12.3):
+				// that history gets its own class so that every other cause is still reported.
+				stale := tw.viaWatcher && tw.apiLearned[k]
 				if !full {
-					r.Violate("stalled-with-unqueried-candidate", "Stalled() fired, result set has %d<%d members, yet learned contact %s (passes filter) was never queried", len(els), tw.effK, a)
+					if stale {
+						r.Violate("stale-stall-offer-after-addnodes", "a consumer blocked on Stalled() received the signal although contact %s, handed over by an AddNodes call that had returned, was never queried (result set %d<%d)", a, len(els), tw.effK)
+					} else {
+						r.Violate("stalled-with-unqueried-candidate", "Stalled() fired, result set has %d<%d members, yet learned contact %s (passes filter) was never queried", len(els), tw.effK, a)
+					}
 					return
 				}
 				if a.Id.Ok {
 					d := dist(a.Id.Value.AsByteArray(), tw.target)
 					if cmpBytes(d, far) < 0 {
-						r.Violate("stalled-with-closer-candidate", "Stalled() fired with a full result set, yet unqueried contact %s is strictly closer than the farthest member", a)
+						if stale {
+							r.Violate("stale-stall-offer-after-addnodes", "a consumer blocked on Stalled() received the signal with a full result set although contact %s, handed over by an AddNodes call that had returned, is strictly closer than the farthest member and was never queried", a)
+						} else {
+							r.Violate("stalled-with-closer-candidate", "Stalled() fired with a full result set, yet unqueried contact %s is strictly closer than the farthest member", a)
+						}
 						return
 					}
 				}
